@@ -1884,12 +1884,14 @@ impl<'a, const C: usize, const R: usize, T: 'a + Copy + std::fmt::Debug> Layout<
                 return custom;
             }
             Sequence { events } => {
-                self.active_sequences.push_back(SequenceState {
+                if let Some(evicted) = self.active_sequences.push_back(SequenceState {
                     cur_event: None,
                     delay: 0,
                     tapped: None,
                     remaining_events: events,
-                });
+                }) {
+                    self.release_evicted_sequence(evicted);
+                }
                 if !is_oneshot {
                     self.oneshot
                         .handle_press(OneShotHandlePressKey::Other(coord));
@@ -1897,12 +1899,14 @@ impl<'a, const C: usize, const R: usize, T: 'a + Copy + std::fmt::Debug> Layout<
                 self.rpt_action = Some(action);
             }
             RepeatableSequence { events } => {
-                self.active_sequences.push_back(SequenceState {
+                if let Some(evicted) = self.active_sequences.push_back(SequenceState {
                     cur_event: None,
                     delay: 0,
                     tapped: None,
                     remaining_events: events,
-                });
+                }) {
+                    self.release_evicted_sequence(evicted);
+                }
                 let _ = self.states.push(RepeatingSequence {
                     sequence: events,
                     coord,
@@ -2010,6 +2014,19 @@ impl<'a, const C: usize, const R: usize, T: 'a + Copy + std::fmt::Debug> Layout<
             }
         }
         CustomEvent::NoEvent
+    }
+
+    /// A sequence pushed out of the full `active_sequences` ring never runs its remaining events.
+    /// Release the keys it still had to release so that they do not stay pressed forever.
+    fn release_evicted_sequence(&mut self, seq: SequenceState<'a, T>) {
+        if let Some(keycode) = seq.tapped {
+            self.states.retain(|s| s.seq_release(keycode).is_some());
+        }
+        for ev in seq.remaining_events {
+            if let SequenceEvent::Release(keycode) = ev {
+                self.states.retain(|s| s.seq_release(*keycode).is_some());
+            }
+        }
     }
 
     /// Obtain the index of the current active layer
